@@ -3,9 +3,11 @@
 package props
 
 import (
+	"encoding/binary"
 	"errors"
 	"fmt"
 	"os"
+	"strings"
 	"sync"
 
 	"github.com/alicebob/sqlittle"
@@ -36,7 +38,7 @@ func c12Profiles(run *hx.Run) []hx.M {
 }
 
 func C12(run *hx.Run) {
-	run.Rule = "for every operation of the catalogue (all high-level selects, low-level scans/searches, schema calls) on every generated database: one fault-free run on a fresh handle records R page reads and the rows; then for EVERY k in 1..R a fresh handle with a one-shot fault at read k, as (a) I/O error and (b) short read (io.EOF, zero-filled tail): the operation must return a non-nil error and its delivered rows must be a prefix of the fault-free rows; plus RLock failing. distinct = (database, operation, k, fault kind); all are non-trivial (the fault fires inside the operation)"
+	run.Rule = "for every operation of the catalogue (all high-level selects, low-level scans/searches, schema calls) on every generated database: one fault-free run on a fresh handle records R page reads and the rows; then for EVERY k in 1..R a fresh handle with a one-shot fault at read k, as (a) I/O error and (b) short read (io.EOF, zero-filled tail): the operation must return a non-nil error and its delivered rows must be a prefix of the fault-free rows; plus RLock failing; plus structures found corrupt: spliced (stale) index pages, a sqlite_master row of a wrong storage class, and page pointers with the top bit set (alone, or with the low bits naming another page of the same kind): error or the unharmed result. distinct = (database, operation, k, fault kind); all are non-trivial (the fault fires inside the operation)"
 	run.Assumptions = append(stdAssumptions, "faults are injected through the verif pager hook over an in-memory image with the file pager's copy semantics", "the operation catalogue takes its keys from a fault-free scan")
 	run.Exhaustive = true
 	profiles := c12Profiles(run)
@@ -87,6 +89,7 @@ func C12(run *hx.Run) {
 	wg.Wait()
 	c12Splice(run)
 	c12MasterRow(run)
+	c12HighBit(run)
 	if run.Seen("op_kind", "IndexedSelect") == 0 || run.Seen("op_kind", "Select") == 0 {
 		run.Inconclusive("operation catalogue lacks Select/IndexedSelect")
 	}
@@ -449,4 +452,140 @@ func c12MasterRow(run *hx.Run) {
 			}
 		}
 	}
+}
+
+// c12HighBit: "any structure found to be corrupt -> error". A page pointer is a 32-bit number; one whose top bit
+// is set names a page far beyond any file SQLite can make (SQLite: "database disk image is malformed"). A reader
+// that masks or truncates the number reads an EXISTING page instead - of this tree or of another - and reports
+// success. Every child pointer (left children and right-most) and overflow pointer of the b-trees of a few tables
+// and indexes gets its top bit set, one at a time; the operation must fail or return the unharmed result.
+func c12HighBit(run *hx.Run) {
+	o := mustOracle(run)
+	if o == nil {
+		return
+	}
+	defer o.Close()
+	dir, cleanup := hx.ScratchDir("C12highbit")
+	defer cleanup()
+	d, err := hx.BuildDB(o, dir, "hb", hx.M{"page_size": 512, "rows": 260, "features": []string{"plain", "alias", "wr", "big"}}, run.Seed*29+3)
+	if err != nil {
+		run.Inconclusive("high-bit corpus: " + err.Error())
+		return
+	}
+	data, _ := os.ReadFile(d.Path)
+	ps := 512
+	type target struct {
+		table, index string
+		root         int
+	}
+	var targets []target
+	for _, t := range d.Meta.Tables {
+		if strings.HasPrefix(t.Name, "sqlite_") {
+			continue
+		}
+		targets = append(targets, target{t.Name, "", t.Root})
+		for _, ix := range t.Indexes {
+			if ix.Root > 0 && !(t.WR != 0 && ix.Origin == "pk") {
+				targets = append(targets, target{t.Name, ix.Name, ix.Root})
+			}
+		}
+	}
+	runOp := func(img []byte, tg target, cols []string) ([]hx.Row, error, string) {
+		low, err := sdb.VerifOpenPager(hx.NewMemPager(img), "")
+		if err != nil {
+			return nil, err, ""
+		}
+		db := sqlittle.VerifWrap(low)
+		defer db.Close()
+		if tg.index == "" {
+			return collectSelect(db, tg.table, cols)
+		}
+		var rows []hx.Row
+		var oerr error
+		_, pm := safely(func() {
+			oerr = db.IndexedSelect(tg.table, tg.index, func(r sqlittle.Row) { rows = append(rows, hx.CloneRow(r)) }, cols...)
+		})
+		return rows, oerr, pm
+	}
+	nmut := 0
+	for ti, tg := range targets {
+		pages, err := hx.WalkTree(data, ps, tg.root)
+		if err != nil {
+			continue
+		}
+		var cols []string
+		for _, t := range d.Meta.Tables {
+			if t.Name == tg.table {
+				cols = t.ColNames()
+			}
+		}
+		ref, rerr, rpm := runOp(data, tg, cols)
+		if rerr != nil || rpm != "" {
+			continue
+		}
+		var offs []int // absolute file offsets of 4-byte page pointers
+		inTree := map[int]bool{}
+		for _, p := range pages {
+			inTree[p.No] = true
+			base := (p.No - 1) * ps
+			if p.Interior() {
+				offs = append(offs, base+p.HdrOff+8)
+				for _, c := range p.Cells {
+					if c.HasLeft {
+						offs = append(offs, base+c.Off)
+					}
+				}
+			}
+			for _, c := range p.Cells {
+				if c.OvflOff > 0 {
+					offs = append(offs, base+c.OvflOff)
+				}
+			}
+		}
+		step := 1
+		if !run.Thorough() && len(offs) > 24 {
+			step = len(offs) / 24
+		}
+		for oi := (ti % step); oi < len(offs); oi += step {
+			off := offs[oi]
+			if off+4 > len(data) || data[off]&0x80 != 0 {
+				continue
+			}
+			img := append([]byte{}, data...)
+			img[off] |= 0x80
+			// ... and the low 31 bits name another page of the same kind, outside this tree where there is one:
+			// what a reader that drops the top bit would read instead
+			if orig := int(binary.BigEndian.Uint32(data[off : off+4])); oi%2 == 0 && orig >= 2 && orig <= len(data)/ps {
+				kind := data[(orig-1)*ps]
+				np := len(data) / ps
+				for k := 0; k < np-1; k++ {
+					cand := 2 + (oi*7+k)%(np-1)
+					if cand != orig && !inTree[cand] && data[(cand-1)*ps] == kind {
+						binary.BigEndian.PutUint32(img[off:off+4], 0x80000000|uint32(cand))
+						run.See("pointer_high_bit_redirected", fmt.Sprintf("to another page of kind 0x%02x", kind))
+						break
+					}
+				}
+			}
+			got, gerr, pm := runOp(img, tg, cols)
+			nmut++
+			run.Eval(1)
+			run.Distinct(fmt.Sprintf("high-bit/%s/%s/%d", tg.table, tg.index, off))
+			name := "Select(" + tg.table + ")"
+			if tg.index != "" {
+				name = "IndexedSelect(" + tg.table + ", " + tg.index + ")"
+			}
+			switch {
+			case pm != "":
+				run.Violation("C12/pointer-high-bit/"+pmKind(pm), fmt.Sprintf("%s with the top bit of the page pointer at file offset %d set: %s", name, off, firstLines(pm, 2)), nil)
+			case gerr != nil:
+				run.See("pointer_high_bit", "error")
+			case diffRows(ref, got) != "":
+				run.Violation("C12/pointer-high-bit/silent", fmt.Sprintf("%s with the top bit of the page pointer at file offset %d set (page number %d: no such page; SQLite: malformed): success with a result that differs from the unharmed one (%d rows, unharmed %d): %s", name, off, binary.BigEndian.Uint32(img[off:off+4]), len(got), len(ref), diffRows(ref, got)), nil)
+			default:
+				run.See("pointer_high_bit", "unharmed result")
+			}
+		}
+	}
+	run.Count("pointer_high_bit_images", nmut)
 }
